@@ -33,8 +33,8 @@ def main():
         if rc != 0:
             res["apply_error"] = out[-500:]
         else:
-            rc, out = sh("cargo test --offline 2>&1 | tail -40", cwd=wt)
-            res["baseline_tests_pass_with_change"] = ("FAILED" not in out and "error" not in out.lower().split("test result")[0][-200:]) and out.count("test result: ok") >= 5
+            rc, out = sh("cargo test --offline 2>&1 | grep -E '^test result|^error|FAILED'", cwd=wt)
+            res["baseline_tests_pass_with_change"] = ("FAILED" not in out and "error" not in out) and out.count("test result: ok") >= 5
             res["baseline_tail"] = [l for l in out.splitlines() if l.startswith("test result")]
             shutil.copy(demo, os.path.join(wt, "tests", "seed_demo.rs"))
             rc1, out1 = sh("cargo test --offline --test seed_demo 2>&1 | tail -25", cwd=wt)
@@ -48,31 +48,36 @@ def main():
     res["confirmed"] = bool(confirmed)
     detections = {}
     if confirmed:
-        assert sh("git -C /repo status --porcelain -- src Cargo.toml")[1].strip() == "", "/repo is not clean"
-        rc, out = sh("git -C /repo apply %s" % patch)
+        # run the checks against a scratch worktree carrying the change (GDSL_REPO override, separate cache) — equivalent to
+        # `git -C /repo apply` + checks + `git -C /repo checkout -- .`, but safe while background runs use /repo
+        wt2 = "/tmp/seedrun_%s" % name
+        sh("git -C /repo worktree remove --force %s" % wt2)
+        sh("git -C /repo worktree add -q %s HEAD" % wt2)
         try:
+            rc, out = sh("git apply %s" % patch, cwd=wt2)
+            env = "GDSL_REPO=%s VERIF_CACHE=%s" % (wt2, os.path.join(VERIF, ".cache_seed"))
             for c in checks:
                 t0 = time.time()
-                rc, out = sh("./check %s 2>&1 | tail -6" % c, cwd=VERIF, timeout=3600)
+                rc, out = sh("%s ./check %s 2>&1 | tail -8" % (env, c), cwd=VERIF, timeout=3600)
                 lines = [l for l in out.splitlines() if l.startswith("VIOLATION")]
-                det = dict(exit=rc, violation_lines=lines[:3], wall_s=round(time.time() - t0, 1))
+                det = dict(exit=1 if lines else 0, violation_lines=lines[:3], wall_s=round(time.time() - t0, 1), tail=out.splitlines()[-3:])
                 if lines:
                     rp = lines[0].split("replay=")[1].split()[0]
                     try:
                         o = json.load(open(rp))
-                        det["replay"] = {k: o.get(k) for k in ("kind", "flavours", "case", "oracle", "broken", "row", "invocation") if o.get(k) is not None}
+                        det["replay"] = {k: o.get(k) for k in ("kind", "flavours", "case", "oracle", "broken", "row", "invocation", "first_disagreement") if o.get(k) is not None}
                     except Exception as e:
                         det["replay"] = str(e)
                 detections[c] = det
         finally:
-            sh("git -C /repo checkout -- .")
+            sh("git -C /repo worktree remove --force %s" % wt2)
     dst = os.path.join(VERIF, "seeded", name)
     os.makedirs(dst, exist_ok=True)
     shutil.copy(patch, os.path.join(dst, "patch.diff"))
     shutil.copy(demo, os.path.join(dst, "seed_demo.rs"))
     meta.update(dict(confirmation=res, checks_run=detections,
                      what_i_ran=["scratch worktree: git apply patch; cargo test --offline (baseline must pass); cargo test --test seed_demo (must fail); git apply -R; demo again (must pass)",
-                                 "git -C /repo apply patch; ./check <id>; git -C /repo checkout -- ."]))
+                                 "scratch worktree with the patch applied; GDSL_REPO=<worktree> VERIF_CACHE=.cache_seed ./check <id> (same checks, pointed at the patched copy; /repo itself untouched)"]))
     json.dump(meta, open(os.path.join(dst, "meta.json"), "w"), indent=1)
     print(json.dumps(dict(name=name, confirmed=res["confirmed"], res={k: v for k, v in res.items() if k != "baseline_tail"},
                           detected={c: (d["exit"], d["violation_lines"][:1]) for c, d in detections.items()}), indent=1))
